@@ -483,6 +483,21 @@ Lemma fetch_cases_table k :
   in_cases fetchArtifactType_cases k = match k with KArtifact | KImage | KIndex => true | _ => false end.
 Proof. destruct k; vm_compute; reflexivity. Qed.
 
+(* what the rules re-read from fetchArtifactType amount to (breaks when the source changes) *)
+Lemma fetch_artifact_type_table s id :
+  fetch_artifact_type s id =
+  match s_kind s id with
+  | KArtifact => s_mat s id
+  | KImage => if is_empty (s_mat s id) then s_mcfg s id else s_mat s id
+  | KIndex => s_mat s id
+  | _ => []
+  end.
+Proof.
+  destruct s as [sp sk sm sc sa sl]. unfold fetch_artifact_type. cbn [s_kind s_mat s_mcfg].
+  destruct (sk id); vm_compute; try reflexivity.
+  destruct (sm id); reflexivity.
+Qed.
+
 Lemma is_empty_true (x : str) : is_empty x = true <-> x = [].
 Proof. destruct x; simpl; split; congruence. Qed.
 
@@ -501,13 +516,13 @@ Lemma fill_at_type s p :
   desc_consistent s p -> d_at (fill_at s p) = effective_type s (d_id p).
 Proof.
   intros ([Ha | Ha] & _); unfold fill_at, fill_at_gen.
-  - rewrite Ha. simpl. unfold effective_type, fetch_artifact_type.
-    rewrite at_fetch_kind_table, fetch_cases_table.
+  - rewrite Ha. simpl. unfold effective_type.
+    rewrite at_fetch_kind_table, fetch_artifact_type_table.
     destruct (s_kind s (d_id p)); simpl; auto.
   - destruct (is_empty (d_at p)) eqn:Ee; auto.
     apply is_empty_true in Ee. rewrite Ee in *.
-    unfold effective_type, fetch_artifact_type in *.
-    rewrite at_fetch_kind_table, fetch_cases_table.
+    unfold effective_type in *.
+    rewrite at_fetch_kind_table, fetch_artifact_type_table.
     destruct (s_kind s (d_id p)); simpl; auto.
 Qed.
 
@@ -1102,3 +1117,389 @@ Qed.
 
 Lemma ex_all_served_ok : all_served_ok ex_source.
 Proof. exact ex_served_ok. Qed.
+
+(* ------------------------------------------------------------------ failing source operations
+   Success with a fault armed means the fault was never reached, and the result is the fault-free
+   one: no error is swallowed into a partial predecessor list or a partial root set. *)
+
+Lemma filter_e_ok need fill keep ps : forall k kept k',
+  filter_e need fill keep ps k = Some (kept, k') -> kept = List.filter keep (map fill ps).
+Proof.
+  induction ps as [|p ps IH]; intros k kept k' H; simpl in H.
+  - injection H as <- _. reflexivity.
+  - destruct (if need p then tick k else Some k) as [k1|]; [|discriminate].
+    destruct (filter_e need fill keep ps k1) as [[kept1 k2]|] eqn:E; [|discriminate].
+    injection H as <- _. simpl. rewrite (IH _ _ _ E). destruct (keep (fill p)); reflexivity.
+Qed.
+
+Lemma filter_e_nofault need fill keep ps :
+  filter_e need fill keep ps 0 = Some (List.filter keep (map fill ps), 0).
+Proof.
+  induction ps as [|p ps IH]; cbn [filter_e map List.filter]; auto.
+  assert (E : (if need p then tick 0 else Some 0) = Some 0) by (destruct (need p); reflexivity).
+  rewrite E, IH. destruct (keep (fill p)); reflexivity.
+Qed.
+
+Lemma apply_filter_e_ok s f ps k ps' k' :
+  apply_filter_e s f ps k = Some (ps', k') -> ps' = apply_filter s f ps.
+Proof.
+  destruct f as [[re|] | key re]; simpl; intro H.
+  - now apply filter_e_ok in H.
+  - now injection H as <- _.
+  - now apply filter_e_ok in H.
+Qed.
+
+Lemma apply_filter_e_nofault s f ps : apply_filter_e s f ps 0 = Some (apply_filter s f ps, 0).
+Proof. destruct f as [[re|] | key re]; simpl; auto using filter_e_nofault. Qed.
+
+Lemma fold_step_e_none s fs : fold_left (step_e s) fs None = None.
+Proof. induction fs; simpl; auto. Qed.
+
+Lemma fold_step_e_ok s fs : forall first ps k b ps' k',
+  fold_left (step_e s) fs (Some (first, ps, k)) = Some (b, ps', k') ->
+  fold_left (step_gen fill_at s) fs (first, ps) = (b, ps').
+Proof.
+  induction fs as [|f fs IH]; intros first ps k b ps' k' H; simpl in *.
+  - now injection H as <- <- _.
+  - unfold step_gen at 2. simpl. destruct (is_noop f); [eapply IH; eauto|].
+    destruct (first && s_lister s)%bool; [eapply IH; eauto|].
+    destruct (apply_filter_e s f ps k) as [[ps1 k1]|] eqn:E.
+    + apply apply_filter_e_ok in E. subst ps1. eapply IH; eauto.
+    + rewrite fold_step_e_none in H. discriminate.
+Qed.
+
+Lemma fold_step_e_nofault s fs : forall first ps,
+  fold_left (step_e s) fs (Some (first, ps, 0)) =
+  Some (fst (fold_left (step_gen fill_at s) fs (first, ps)),
+        snd (fold_left (step_gen fill_at s) fs (first, ps)), 0).
+Proof.
+  induction fs as [|f fs IH]; intros first ps; simpl; auto.
+  unfold step_gen at 2 4. simpl. destruct (is_noop f); [apply IH|].
+  destruct (first && s_lister s)%bool; [apply IH|].
+  rewrite apply_filter_e_nofault. apply IH.
+Qed.
+
+Lemma find_preds_e_ok s fs x k ps k' :
+  find_preds_e s fs x k = Some (ps, k') -> ps = find_preds s fs x.
+Proof.
+  unfold find_preds_e, find_preds, find_preds_gen. destruct (tick k) as [k1|]; [|discriminate].
+  destruct (fold_left (step_e s) fs (Some (true, s_preds s x, k1))) as [[[b ps1] k2]|] eqn:E; [|discriminate].
+  intro H. injection H as <- _. apply fold_step_e_ok in E. now rewrite E.
+Qed.
+
+Lemma find_preds_e_nofault s fs x : find_preds_e s fs x 0 = Some (find_preds s fs x, 0).
+Proof.
+  unfold find_preds_e, find_preds, find_preds_gen. simpl. now rewrite fold_step_e_nofault.
+Qed.
+
+Lemma dfs_e_ok fuel s fs limit : forall st V R k roots,
+  dfs_e fuel s fs limit st V R k = ROk roots ->
+  dfs fuel (find_preds s fs) limit st V R = Some roots.
+Proof.
+  induction fuel as [|fuel IH]; intros st V R k roots H; cbn [dfs_e dfs] in *; [discriminate|].
+  destruct st as [|[cur d] rest]; [now injection H as <-|].
+  destruct (mem (d_id cur) V); [eapply IH; eauto|].
+  destruct ((0 <? limit)%Z && (Z.of_nat d =? limit)%Z)%bool; [eapply IH; eauto|].
+  destruct (find_preds_e s fs (d_id cur) k) as [[ps k']|] eqn:E; [|discriminate].
+  apply find_preds_e_ok in E. rewrite <- E.
+  destruct ps as [|p0 ps]; eapply IH; eauto.
+Qed.
+
+Lemma dfs_e_nofault fuel s fs limit : forall st V R,
+  dfs_e fuel s fs limit st V R 0 =
+  match dfs fuel (find_preds s fs) limit st V R with Some roots => ROk roots | None => RFuel end.
+Proof.
+  induction fuel as [|fuel IH]; intros st V R; cbn [dfs_e dfs]; [reflexivity|].
+  destruct st as [|[cur d] rest]; [reflexivity|].
+  destruct (mem (d_id cur) V); [apply IH|].
+  destruct ((0 <? limit)%Z && (Z.of_nat d =? limit)%Z)%bool; [apply IH|].
+  rewrite find_preds_e_nofault. destruct (find_preds s fs (d_id cur)) as [|p0 ps]; apply IH.
+Qed.
+
+(* success = the fault-free result, whatever fault was armed *)
+Lemma find_roots_e_success fuel s fs limit node k roots :
+  find_roots_e fuel s fs limit node k = ROk roots -> find_roots fuel s fs limit node = Some roots.
+Proof. unfold find_roots_e, find_roots, find_roots_fp. apply dfs_e_ok. Qed.
+
+(* without a fault the error-aware run is the plain one and never fails *)
+Lemma find_roots_e_nofault fuel s fs limit node :
+  find_roots_e fuel s fs limit node 0 =
+  match find_roots fuel s fs limit node with Some roots => ROk roots | None => RFuel end.
+Proof. unfold find_roots_e, find_roots, find_roots_fp. apply dfs_e_nofault. Qed.
+
+(* a reached fault is an error: the first operation failing fails the call *)
+Lemma find_roots_e_first_op fuel s fs limit node :
+  (limit <= 0)%Z -> find_roots_e (S fuel) s fs limit node 1 = RErr.
+Proof.
+  intro Hl. unfold find_roots_e. cbn [dfs_e]. simpl mem.
+  assert (E : ((0 <? limit)%Z && (Z.of_nat 0 =? limit)%Z)%bool = false).
+  { destruct (0 <? limit)%Z eqn:E1; auto. apply Z.ltb_lt in E1. lia. }
+  rewrite E. reflexivity.
+Qed.
+
+(* ------------------------------------------------------------------ user-supplied FindPredecessors *)
+
+(* filters stacked on a caller's own FindPredecessors follow exactly those of ITS predecessors
+   whose manifest satisfies the filters (the descriptors it returns may lack fields; present
+   fields must be the manifest's; no completeness needed: nothing is taken on trust) *)
+Lemma find_preds_custom_exact s custom fs x :
+  Forall (desc_consistent s) (custom x) ->
+  map d_id (find_preds_custom s custom fs x) =
+  List.filter (fun id => forallb (fun f => keep_spec s f id) fs) (map d_id (custom x)).
+Proof.
+  intro H. unfold find_preds_custom.
+  apply (find_preds_fold s fs (false, custom x)). split; simpl; [exact H | discriminate].
+Qed.
+
+Lemma find_preds_custom_nil s custom x : find_preds_custom s custom [] x = custom x.
+Proof. reflexivity. Qed.
+
+(* the walk itself for ANY FindPredecessors function (user-supplied or built by the filters) *)
+Lemma find_roots_fp_unlimited (fp : nat -> list desc) rank limit node fuel roots :
+  (forall x p, In p (fp x) -> rank x < rank (d_id p)) -> (limit <= 0)%Z ->
+  find_roots_fp fuel fp limit node = Some roots ->
+  (forall r, In r roots -> reach fp (d_id node) (d_id r) /\ fp (d_id r) = []) /\
+  (forall a, reach fp (d_id node) a -> fp a = [] -> In a (map d_id roots)) /\
+  (forall a, reach fp (d_id node) a -> exists r, In r roots /\ reach fp a (d_id r)).
+Proof. intros Hr Hl H. exact (roots_unlimited fp limit node rank Hr fuel roots Hl H). Qed.
+
+Lemma find_roots_fp_depth (fp : nat -> list desc) rank limit node fuel roots :
+  (forall x p, In p (fp x) -> rank x < rank (d_id p)) -> (0 < limit)%Z ->
+  find_roots_fp fuel fp limit node = Some roots ->
+  (forall r, In r roots ->
+     (exists k, Z.of_nat k <= limit /\ path fp k (d_id node) (d_id r))%Z /\
+     (fp (d_id r) = [] \/ path fp (Z.to_nat limit) (d_id node) (d_id r))) /\
+  (exists r, In r roots /\ reach fp (d_id node) (d_id r)).
+Proof. intros Hr Hl H. exact (roots_depth fp limit node rank Hr fuel roots Hl H). Qed.
+
+(* ------------------------------------------------------------------ the walk over any relation
+   equivalent to the followed-predecessor relation *)
+Lemma rpath_equiv (R1 R2 : nat -> nat -> Prop) :
+  (forall x y, R1 x y <-> R2 x y) -> forall k a c, rpath R1 k a c <-> rpath R2 k a c.
+Proof.
+  intros H k a c. split; intro P; induction P; try constructor; econstructor; eauto; now apply H.
+Qed.
+
+Lemma path_rpath_E fp k a c : path fp k a c <-> rpath (E fp) k a c.
+Proof. split; intro P; induction P; try constructor; econstructor; eauto. Qed.
+
+Lemma find_roots_unlimited_rel s fs rank limit node fuel roots (R : nat -> nat -> Prop) :
+  (forall x y, E (find_preds s fs) x y <-> R x y) ->
+  acyclic_source s rank -> (limit <= 0)%Z ->
+  find_roots fuel s fs limit node = Some roots ->
+  let up a c := exists k, rpath R k a c in
+  (forall r, In r roots -> up (d_id node) (d_id r) /\ forall y, ~ R (d_id r) y) /\
+  (forall a, up (d_id node) a -> (forall y, ~ R a y) -> In a (map d_id roots)) /\
+  (forall a, up (d_id node) a -> exists r, In r roots /\ up a (d_id r)).
+Proof.
+  intros HR Hac Hl Hf up.
+  assert (Hup : forall a c, anc s fs a c <-> up a c).
+  { intros a c. unfold anc, reach, up. split; intros (k & P); exists k.
+    - apply (rpath_equiv _ _ HR). now apply path_rpath_E.
+    - apply path_rpath_E. now apply (rpath_equiv _ _ HR). }
+  assert (Hnil : forall x, find_preds s fs x = [] <-> forall y, ~ R x y).
+  { intro x. split.
+    - intros E0 y Hy. apply HR in Hy. unfold E in Hy. rewrite E0 in Hy. contradiction.
+    - intro Hn. destruct (find_preds s fs x) as [|p l] eqn:Ep; auto.
+      exfalso. apply (Hn (d_id p)). apply HR. unfold E. rewrite Ep. left. reflexivity. }
+  destruct (find_roots_unlimited s fs rank limit node fuel roots Hac Hl Hf) as (H1 & H2 & H3).
+  repeat split.
+  - apply Hup. now apply H1.
+  - apply Hnil. now apply H1.
+  - intros a Ha Hn. apply H2; [now apply Hup | now apply Hnil].
+  - intros a Ha. destruct (H3 a) as (r & Hr & Hra); [now apply Hup|].
+    exists r. split; auto. now apply Hup.
+Qed.
+
+(* ------------------------------------------------------------------ the call sequence *)
+Lemma dfs_log_fst fuel fp limit : forall st V R calls,
+  option_map fst (dfs_log fuel fp limit st V R calls) = dfs fuel fp limit st V R.
+Proof.
+  induction fuel as [|fuel IH]; intros st V R calls; cbn [dfs_log dfs]; [reflexivity|].
+  destruct st as [|[cur d] rest]; [reflexivity|].
+  destruct (mem (d_id cur) V); [apply IH|].
+  destruct ((0 <? limit)%Z && (Z.of_nat d =? limit)%Z)%bool; [apply IH|].
+  destruct (fp (d_id cur)); apply IH.
+Qed.
+
+(* FindPredecessors is called at most once per node, and only on nodes that end up visited *)
+Lemma dfs_log_calls fuel fp limit : forall st V R calls roots out,
+  NoDup calls -> (forall c, In c calls -> In c V) ->
+  dfs_log fuel fp limit st V R calls = Some (roots, out) ->
+  NoDup out /\ (forall c, In c calls -> In c out).
+Proof.
+  induction fuel as [|fuel IH]; intros st V R calls roots out Hnd Hsub H; cbn [dfs_log] in H; [discriminate|].
+  destruct st as [|[cur d] rest].
+  - injection H as _ <-. split.
+    + apply NoDup_rev. exact Hnd.
+    + intros c Hc. now apply in_rev in Hc.
+  - destruct (mem (d_id cur) V) eqn:Em; [eapply IH; eauto|].
+    apply mem_not_In in Em.
+    assert (Hsub' : forall c, In c calls -> In c (d_id cur :: V)) by (intros c Hc; right; auto).
+    destruct ((0 <? limit)%Z && (Z.of_nat d =? limit)%Z)%bool; [eapply IH; eauto|].
+    assert (Hnd' : NoDup (d_id cur :: calls)).
+    { constructor; [intro Hc; apply Em; now apply Hsub | exact Hnd]. }
+    assert (Hsub2 : forall c, In c (d_id cur :: calls) -> In c (d_id cur :: V)).
+    { intros c [<- | Hc]; [left; reflexivity | right; auto]. }
+    destruct (fp (d_id cur)) as [|p0 ps];
+      (destruct (IH _ _ _ _ _ _ Hnd' Hsub2 H) as (H1 & H2); split; [exact H1 | intros c Hc; apply H2; right; exact Hc]).
+Qed.
+
+Lemma find_roots_log_spec fuel s fs limit node roots out :
+  find_roots_log fuel s fs limit node = Some (roots, out) ->
+  find_roots fuel s fs limit node = Some roots /\ NoDup out.
+Proof.
+  unfold find_roots_log, find_roots, find_roots_fp. intro H. split.
+  - rewrite <- dfs_log_fst with (calls := []). now rewrite H.
+  - eapply (dfs_log_calls fuel (find_preds s fs) limit _ _ _ [] roots out); eauto; try constructor; try (intros c []).
+Qed.
+
+(* ------------------------------------------------------------------ the generated depth arithmetic *)
+Lemma findRoots_stop_spec limit d :
+  findRoots_stop limit (Z.of_nat d) = ((0 <? limit)%Z && (Z.of_nat d =? limit)%Z)%bool.
+Proof. unfold findRoots_stop. now rewrite Z.gtb_ltb. Qed.
+
+Lemma findRoots_push_depth_spec limit d :
+  Z.to_nat (findRoots_push_depth limit (Z.of_nat d)) = S d.
+Proof. unfold findRoots_push_depth. lia. Qed.
+
+Lemma findRoots_start_depth_spec : Z.to_nat findRoots_start_depth = 0.
+Proof. reflexivity. Qed.
+
+Lemma dfs_log_g_eq fuel fp limit : forall st V R calls,
+  dfs_log_g fuel fp limit st V R calls = dfs_log fuel fp limit st V R calls.
+Proof.
+  induction fuel as [|fuel IH]; intros st V R calls; cbn [dfs_log_g dfs_log]; [reflexivity|].
+  destruct st as [|[cur d] rest]; [reflexivity|].
+  rewrite findRoots_stop_spec, findRoots_push_depth_spec.
+  destruct (mem (d_id cur) V); [apply IH|].
+  destruct ((0 <? limit)%Z && (Z.of_nat d =? limit)%Z)%bool; [apply IH|].
+  destruct (fp (d_id cur)); apply IH.
+Qed.
+
+(* what the runner executes is the proved loop *)
+Lemma find_roots_run_eq fuel s fs limit node :
+  find_roots_run fuel (find_preds s fs) limit node = find_roots_log fuel s fs limit node.
+Proof. unfold find_roots_run, find_roots_log. rewrite findRoots_start_depth_spec. apply dfs_log_g_eq. Qed.
+
+(* ------------------------------------------------------------------ order independence (Depth <= 0)
+   Two sources that serve the same predecessor SETS (any order, any multiplicity, any descriptor
+   fields as long as both are served_ok) over the same manifests give the same SET of roots. *)
+Lemma roots_unlimited_order_independent s1 s2 fs rank1 rank2 limit node fuel1 fuel2 roots1 roots2 :
+  (forall x y, In y (map d_id (s_preds s1 x)) <-> In y (map d_id (s_preds s2 x))) ->
+  (forall f y, keep_spec s1 f y = keep_spec s2 f y) ->
+  all_served_ok s1 -> all_served_ok s2 ->
+  acyclic_source s1 rank1 -> acyclic_source s2 rank2 -> (limit <= 0)%Z ->
+  find_roots fuel1 s1 fs limit node = Some roots1 ->
+  find_roots fuel2 s2 fs limit node = Some roots2 ->
+  forall a, In a (map d_id roots1) <-> In a (map d_id roots2).
+Proof.
+  intros Hp Hk Ok1 Ok2 Ac1 Ac2 Hl F1 F2.
+  assert (HR : forall x y, followed_spec s1 fs x y <-> followed_spec s2 fs x y).
+  { intros x y. unfold followed_spec. rewrite (Hp x y). split; intros (H1 & H2); split; auto;
+      intros f Hf; [rewrite <- Hk | rewrite Hk]; auto. }
+  destruct (find_roots_unlimited_rel s1 fs rank1 limit node fuel1 roots1 (followed_spec s1 fs)
+              (fun x y => E_followed_spec s1 fs x y Ok1) Ac1 Hl F1) as (A1 & A2 & _).
+  destruct (find_roots_unlimited_rel s2 fs rank2 limit node fuel2 roots2 (followed_spec s2 fs)
+              (fun x y => E_followed_spec s2 fs x y Ok2) Ac2 Hl F2) as (B1 & B2 & _).
+  assert (Hup : forall a c, (exists k, rpath (followed_spec s1 fs) k a c) <->
+                            (exists k, rpath (followed_spec s2 fs) k a c)).
+  { intros a c. split; intros (k & P); exists k; now apply (rpath_equiv _ _ HR). }
+  intro a. split; intro Ha.
+  - apply in_map_iff in Ha. destruct Ha as (r & <- & Hr). destruct (A1 r Hr) as (U & N).
+    apply B2; [now apply Hup|]. intros y Hy. apply (N y). now apply HR.
+  - apply in_map_iff in Ha. destruct Ha as (r & <- & Hr). destruct (B1 r Hr) as (U & N).
+    apply A2; [now apply Hup|]. intros y Hy. apply (N y). now apply HR.
+Qed.
+
+(* ------------------------------------------------------------------ plain descriptors
+   A store that serves predecessors as plain descriptors (media type, digest, size only -- what a
+   reloaded OCI layout does since fix fda86b1) satisfies served_ok outright: every filter fetches
+   and judges the manifest itself. *)
+Definition plain_desc (p : desc) : Prop := d_at p = [] /\ d_ann p = None.
+
+Lemma plain_served_ok s p : s_lister s = false -> plain_desc p -> served_ok s p.
+Proof.
+  intros Hl (Ha & Hn). split.
+  - split; [left; exact Ha | now rewrite Hn].
+  - rewrite Hl. discriminate.
+Qed.
+
+Lemma find_preds_exact_plain s fs x :
+  s_lister s = false -> Forall plain_desc (s_preds s x) ->
+  map d_id (find_preds s fs x) =
+  List.filter (fun id => forallb (fun f => keep_spec s f id) fs) (map d_id (s_preds s x)).
+Proof.
+  intros Hl H. apply find_preds_exact. eapply Forall_impl; [|exact H].
+  intros p Hp. now apply plain_served_ok.
+Qed.
+
+(* ------------------------------------------------------------------ the generated filter decisions *)
+Lemma keep_ann_g_eq key re p : keep_ann_g key re p = keep_ann key re p.
+Proof.
+  unfold keep_ann_g, keep_ann, filterAnnotation_keep.
+  destruct (d_ann p) as [m|]; simpl; [|reflexivity].
+  destruct (lookup key m) as [v|]; simpl; [|reflexivity].
+  destruct re; reflexivity.
+Qed.
+
+Lemma keep_at_g_eq re p : keep_at_g re p = re (d_at p).
+Proof. reflexivity. Qed.
+
+Lemma fill_at_g_eq s p : fill_at_g s p = fill_at s p.
+Proof. reflexivity. Qed.
+
+Lemma fill_ann_g_eq s p : fill_ann_g s p = fill_ann s p.
+Proof. unfold fill_ann_g, fill_ann, filterAnnotation_fetch_guard. destruct (d_ann p); reflexivity. Qed.
+
+Lemma filter_ext_eq {A} (f g : A -> bool) l : (forall a, f a = g a) -> List.filter f l = List.filter g l.
+Proof. intro H. induction l as [|a l IH]; simpl; auto. rewrite H, IH. reflexivity. Qed.
+
+Lemma apply_filter_g_eq s f ps : apply_filter_g s f ps = apply_filter s f ps.
+Proof.
+  destruct f as [[re|] | key re]; unfold apply_filter, apply_filter_gen, apply_filter_g; auto.
+  induction ps as [|p ps IH]; cbn [map List.filter]; auto.
+  rewrite fill_ann_g_eq, keep_ann_g_eq, IH. reflexivity.
+Qed.
+
+Lemma apply_lister_g_eq f ps : apply_lister_g f ps = apply_lister f ps.
+Proof.
+  destruct f as [[re|] | key re]; simpl; auto. apply filter_ext_eq. intro a. apply keep_ann_g_eq.
+Qed.
+
+Lemma step_g_eq s acc f : step_g s acc f = step_gen fill_at s acc f.
+Proof.
+  unfold step_g, step_gen. destruct (is_noop f); auto.
+  destruct (fst acc && s_lister s)%bool; [now rewrite apply_lister_g_eq|].
+  now rewrite apply_filter_g_eq.
+Qed.
+
+Lemma fold_step_g_eq s fs : forall acc,
+  fold_left (step_g s) fs acc = fold_left (step_gen fill_at s) fs acc.
+Proof. induction fs as [|f fs IH]; intro acc; simpl; auto. now rewrite step_g_eq, IH. Qed.
+
+(* what the runner executes for the filters is the proved function *)
+Lemma find_preds_g_eq s fs x : find_preds_g s fs x = find_preds s fs x.
+Proof. unfold find_preds_g, find_preds, find_preds_gen. now rewrite fold_step_g_eq. Qed.
+
+Lemma find_preds_custom_g_eq s c fs x : find_preds_custom_g s c fs x = find_preds_custom s c fs x.
+Proof. unfold find_preds_custom_g, find_preds_custom. now rewrite fold_step_g_eq. Qed.
+
+(* ------------------------------------------------------------------ ExtendedCopy's error origins *)
+Lemma extended_copy_x_spec resolve roots_ok copy_ok tag_ok src_ref dst_ref tags :
+  match extended_copy_x resolve roots_ok copy_ok tag_ok src_ref dst_ref tags with
+  | XOk node tags' =>
+      extended_copy resolve (fun _ => (roots_ok && copy_ok)%bool) tag_ok src_ref dst_ref tags = Some (node, tags')
+  | XErr op =>
+      extended_copy resolve (fun _ => (roots_ok && copy_ok)%bool) tag_ok src_ref dst_ref tags = None /\
+      match op with
+      | OpResolve => resolve src_ref = None
+      | OpFindPredecessors => resolve src_ref <> None /\ roots_ok = false
+      | OpCopy => resolve src_ref <> None /\ roots_ok = true /\ copy_ok = false
+      | OpTag => resolve src_ref <> None /\ roots_ok = true /\ copy_ok = true /\ tag_ok = false
+      end
+  end.
+Proof.
+  unfold extended_copy_x, extended_copy. destruct (resolve src_ref) as [n|]; [|split; reflexivity].
+  destruct roots_ok, copy_ok, tag_ok; simpl; repeat split; auto; discriminate.
+Qed.
